@@ -114,8 +114,9 @@ def run(ctx):
                 final = all(b == 'U' or all(ch.isdigit() or ch == '.' for ch in unS(b[1])) for b in (lo, hi))
                 rt = range_text(lo, hi) if final else 'skip'
                 ctx.oracle_cases += 1
-                if rt == 'skip':
-                    # bounds a marker cannot express (pre/post/dev): compare pointwise instead
+                if True:
+                    # pointwise, with membership in R decided here (PEP 440 order of the model, pre / post / dev environment versions next to
+                    # every bound included) - for bounds a marker cannot express this is the only comparison
                     for env, ex in markers.grid_envs(ctx.rng, keys, [ma, ['R', ['ver', pfv], 'T', [[c, 'T'] for c in (mlo, mhi) if c != 'U']]], 6):
                         rv = sess.ask(['version', S(env['python_full_version'])])
                         if rv[0] != 'ok':
@@ -124,6 +125,8 @@ def run(ctx):
                         g1, g2 = c02.eval_all(sess, c1, env, ex), c02.eval_all(sess, a, env, ex)
                         if g1[0] == 'ok' and g2[0] == 'ok' and (g1[1] == 'T') != ((g2[1] == 'T') and inside):
                             ctx.failure('complexify_python_versions(m,R) does not evaluate as m and python_full_version in R', dict(how, env=env))
+                if rt == 'skip':
+                    pass
                 elif rt is not None:
                     rr, _ = sess.parse(rt)
                     x, _ = sess.op('and', a, rr)
